@@ -456,6 +456,51 @@ func checkWebUIMask(c *km.Ctx, s *km.Sem) {
 	forbidden := consts["AuthTypeIPCertificate"] | consts["AuthTypeKeymasterX509"]
 	var bits []string
 	ok := true
+	// a bit enters the mask because the operator listed the method of that name - never by default (a mask that is
+	// non-zero for an empty or unknown list admits sessions the operator did not ask for)
+	protoByVal, mainByVal := constNameTables(c)
+	unlicensed := ""
+	isWebListed := func(v ssa.Value) bool {
+		u, isU := km.Unwrap(v).(*ssa.UnOp)
+		if !isU || u.Op != token.MUL {
+			return false
+		}
+		ia, isIA := u.X.(*ssa.IndexAddr)
+		if !isIA {
+			return false
+		}
+		_, path, okP := km.FieldPath(ia.X)
+		return okP && strings.HasSuffix(path, "Base.AllowedAuthBackendsForWebUI")
+	}
+	licensed := func(k int64, st km.DNF, where string) {
+		if k == 0 {
+			return
+		}
+		good := len(st) > 0
+		for _, cj := range st {
+			found := false
+			for _, f := range cj.List() {
+				if f.Op != token.EQL || f.Y == nil {
+					continue
+				}
+				for _, pr := range [][2]ssa.Value{{f.X, f.Y}, {f.Y, f.X}} {
+					if name, isS := km.ConstString(pr[1]); isS && isWebListed(pr[0]) && protoByVal[name] != "" && protoByVal[name] == mainByVal[k] {
+						found = true
+					}
+				}
+			}
+			if !found {
+				good = false
+			}
+		}
+		if !good {
+			n := mainByVal[k]
+			if n == "" {
+				n = sprintf("%#x", k)
+			}
+			unlicensed = n + " enters the mask at " + where + " without the operator having listed it"
+		}
+	}
 	seen := map[ssa.Value]bool{}
 	var walk func(v ssa.Value)
 	walk = func(v ssa.Value) {
@@ -464,6 +509,22 @@ func checkWebUIMask(c *km.Ctx, s *km.Sem) {
 			return
 		}
 		seen[v] = true
+		switch x := v.(type) {
+		case *ssa.Phi:
+			for i, e := range x.Edges {
+				if k, isK := km.ConstInt(e); isK && k != 0 {
+					licensed(k, c.F.OnEdge(x.Block().Preds[i], x.Block()), posOf(c, x))
+				}
+			}
+		case *ssa.BinOp:
+			if x.Op == token.OR {
+				for _, e := range []ssa.Value{x.X, x.Y} {
+					if k, isK := km.ConstInt(e); isK && k != 0 {
+						licensed(k, c.F.At(x), posOf(c, x))
+					}
+				}
+			}
+		}
 		switch x := v.(type) {
 		case *ssa.Const:
 			k, isK := km.ConstInt(x)
@@ -533,6 +594,11 @@ func checkWebUIMask(c *km.Ctx, s *km.Sem) {
 		return
 	}
 	c.R.Add("R-C06-2", km.FuncName(fn), "content of the web-UI admission mask", c.P.Pos(fn.Pos()), "an OR of factor-bit constants only: neither AuthTypeIPCertificate nor AuthTypeKeymasterX509 (nor any computed value) can enter the mask the web endpoints pass to checkAuth", strings.Join(bits, "|"), ok)
+	found := "every constant bit is OR-ed in under listed == the method of the same name"
+	if unlicensed != "" {
+		found = unlicensed
+	}
+	c.R.Add("R-C06-2", km.FuncName(fn), "web-UI admission mask: a bit per listed method", c.P.Pos(fn.Pos()), "a non-zero constant enters the mask only where an entry of allowed_auth_backends_for_webui equals the proto name of that very bit", found, unlicensed == "")
 }
 
 func checkCSRF(c *km.Ctx, s *km.Sem, checkAuth *ssa.Function) {
